@@ -8,7 +8,7 @@ from ..program import AnalysisError, Program, norm, walk_local
 from ..report import Check
 from ..types import Types
 from ..util import calls_in, fkey, is_method_call, node_calls, path_of, recv_of, stores_to_attr, where
-from .mgr import MGR, CORE, Dispatch, const_resolver, self_call
+from .mgr import comprehension_facts, MGR, CORE, Dispatch, const_resolver, self_call
 
 SUB_CTRL = ["MT_SUBSCRIBE", "MT_UNSUBSCRIBE", "MT_PAUSE_SUBSCRIPTION", "MT_RESUME_SUBSCRIPTION"]
 CONNECTS = ["MT_CONNECT", "MT_CONNECT_V2"]
@@ -201,7 +201,9 @@ def run(prog: Program, chk: Check):
                                 rv = path_of(recv_of(rc))
                                 g1 = guards.parse(f"{rv} is not {pname}")
                                 g2 = guards.parse(f"{rv} != {pname}")
-                                if guards.any_path_implies(sgs.at(m), g1) and guards.any_path_implies(sgs.at(m), g2):
+                                extra = comprehension_facts(stl.node, rv) if rv else []
+                                pth = [list(p_) + extra for p_ in sgs.at(m)]
+                                if guards.any_path_implies(pth, g1) and guards.any_path_implies(pth, g2):
                                     okall = False
                             copy_excludes = copy_excludes or okall
             # or the logger copy is guarded by the requester not being a logger ... (not sufficient: other loggers need it)
